@@ -146,15 +146,22 @@ pub fn gen_scene(r: &mut Rng, q: &Joints) -> SceneSpec {
     let mut base = base;
     let mut safety = safety;
     // directed family: bodies that really intersect, with exemptions (and decoy keys) on exactly those pairs
-    if r.chance(0.3) {
+    let mut env = env;
+    if r.chance(0.4) {
         fam.push_str("/exempt-actual");
         let l32 = links.map(|p| iso32(&p));
+        if has_tool && env_len >= 2 && r.chance(0.5) {
+            // an environment object that is NOT the first one sits where the tool is
+            let e = 1 + r.below(env_len - 1);
+            let off = Isometry3::translation(r.range(-0.01, 0.01) as f32, r.range(-0.01, 0.01) as f32, r.range(-0.01, 0.01) as f32);
+            env[e] = CollisionBody { mesh: rand_mesh(r, 0.06), pose: l32[5] * off };
+        }
         if has_tool && has_base && r.chance(0.5) {
             // the base body sits where the tool is
             let off = Isometry3::translation(r.range(-0.01, 0.01) as f32, r.range(-0.01, 0.01) as f32, r.range(-0.01, 0.01) as f32);
             base = Some(BaseBody { mesh: rand_mesh(r, 0.06), base_pose: l32[5] * off });
         }
-        if has_tool && r.chance(0.5) {
+        if has_tool && r.chance(0.7) {
             // an upstream link (J1..J4) whose mesh reaches the tool
             let i = r.below(4);
             let c = l32[i].inverse() * l32[5].translation.vector;
@@ -498,7 +505,7 @@ pub fn c11(seed: u64, n: usize) {
     let mut r = Rng::new(seed ^ 0xC11);
     kws_cases("C11", &mut r, n, &[0, 1, 2, 3], true);
     // "not reported colliding" rests on the verdicts of the same robot body: scenes with the brute-force oracle table
-    coll_cases("C11", &mut r, (n / 4).max(20));
+    coll_cases("C11", &mut r, (n / 2).max(40));
 }
 
 /// delegation of forward, link poses, limits, singularity; placement of the body meshes
